@@ -29,6 +29,25 @@ def run(chk):
     r = gen.rng(chk.seed, "C02")
     n_cases = 60 if chk.tier == "quick" else 600
     es_terms, add_terms = [], []
+    # ---- a component whose (positive) weight is far below machine epsilon, and samples that sit on it, many sigma away from the others: the
+    #      responsibilities are the posterior ones computed in the log domain (the tiny weight is not lifted to eps)
+    for j in range(4 if chk.tier == "quick" else 60):
+        D = r.choice([1, 2])
+        wt = np.array([1.0 - 1e-30, 1e-30]) if j % 2 else np.array([0.5 - 5e-41, 0.5 - 5e-41, 1e-40])
+        Ct = len(wt)
+        mut = np.vstack([np.full(D, 4.0 * c_) for c_ in range(Ct - 1)] + [np.full(D, 40.0)])
+        vart = np.ones((Ct, D))
+        mt = make_gmm(wt, mut, vart)
+        g = gen.nprng(r)
+        Xt = np.vstack([mut[-1] + 0.1 * g.normal(size=(3, D)), mut[0] + g.normal(size=(4, D)), mut[-1] - 9.0 + 0.1 * g.normal(size=(2, D))])
+        comp = np.log(wt)[:, None] - 0.5 * (((Xt[None, :, :] - mut[:, None, :]) ** 2 / vart[:, None, :]).sum(-1) + np.log(2 * np.pi * vart).sum(-1)[:, None])
+        lse = comp.max(axis=0) + np.log(np.exp(comp - comp.max(axis=0)).sum(axis=0))
+        resp = np.exp(comp - lse)
+        st_t = mt.acc_stats(Xt)
+        chk.count(1, key=("weight far below eps", Ct))
+        if not (np.allclose(np.asarray(st_t.n), resp.sum(axis=1), rtol=1e-9, atol=1e-12) and abs(float(st_t.log_likelihood) - float(lse.sum())) <= 1e-9 * abs(float(lse.sum()))):
+            chk.fail("with a component weight of %.0e the accumulated responsibilities %s are not the posterior ones %s" % (float(wt[-1]), np.asarray(st_t.n).tolist(), resp.sum(axis=1).tolist()),
+                     {"weights": hexlist(wt), "means": hexlist(mut), "variances": hexlist(vart), "X": hexlist(Xt)})
     for i in range(n_cases):
         C = r.choice([1, 2, 3, 4])
         D = r.choice([1, 2, 3])
